@@ -48,7 +48,7 @@ func checkC13(r *Report) {
 	e := runEffect(p)
 	cmpTrusted(r)
 	pathTrusted(r)
-	r.Explain = "Structural clauses of 'canonicalisation yields one representative per isomorphism class'. C13.a PURE: every comparator used by Graph.Canon (orderedNodes.Less and the sort closures of Canon/renumber) is free of side effects, so duplicate detection and order cannot depend on which pairs the sort compared. C13.b COVER: each comparator over a graph type reads every field of both operands (Node: Version, Errors; NodeError: Req, Error; Edge: From, To, Requirement, Type; VersionKey; PackageKey; dep.Type/attr.Set), following delegation to nested comparators, so no component of the graph is left to input order. C13.c MUST-SORT: every success path of Canon passes the per-node error sort loop, the node sort and renumber, and every path of renumber reaches the edge sort. Not decided: correctness of the BFS relabelling for duplicate nodes."
+	r.Explain = "Structural clauses of 'canonicalisation yields one representative per isomorphism class'. C13.a PURE: every comparator used by Graph.Canon (orderedNodes.Less and the sort closures of Canon/renumber) is free of side effects, so duplicate detection and order cannot depend on which pairs the sort compared. C13.b COVER: each comparator over a graph type reads every field of both operands (Node: Version, Errors; NodeError: Req, Error; Edge: From, To, Requirement, Type; VersionKey; PackageKey; dep.Type/attr.Set), following delegation to nested comparators, so no component of the graph is left to input order. C13.c MUST-SORT: every success path of Canon passes the per-node error sort loop, the node sort and renumber, and every path of renumber reaches the edge sort. C13.d DUPE-ADJACENT: the duplicate scan that decides between the cheap and the breadth-first canonicalisation compares every adjacent pair of the sorted nodes. C13.e SORT-SELF: each sort.Slice callback indexes the slice being sorted. Not decided: correctness of the BFS relabelling for duplicate nodes."
 	canon := p.lookupFn("(*resolve.Graph).Canon")
 	renum := p.lookupFn("(*resolve.Graph).renumber")
 	if canon == nil || renum == nil {
@@ -126,6 +126,10 @@ func checkC13(r *Report) {
 		} else {
 			r.ok("C13.c/MUST-SORT", key, p.pos(req.fn.Pos()), "every path from entry to a success return passes it")
 		}
+	}
+	dupeAdjacentRule(r, p, "C13.d/DUPE-ADJACENT")
+	if n := sortSelfRule(r, p, "C13.e/SORT-SELF", []*ssa.Function{canon, renum}); n < 2 {
+		r.floor("C13.e/SORT-SELF", "sort.Slice calls in Canon/renumber", n, 2)
 	}
 	// the per-node error sort: a loop over g.Nodes on every success path whose every iteration sorts
 	{
@@ -251,7 +255,7 @@ func checkC14(r *Report) {
 	e := runEffect(p)
 	pathTrusted(r)
 	effectTrusted(r)
-	r.Explain = "Structural clauses of 'the in-memory client reports what was last added'. C14.a NOOP-STORE (deny-list, expected count zero, armed by a positive example analysed on every run): no store in package resolve writes back to s[i] the value just read from s[i] — the shape of AddVersion's replace branch storing the old element instead of the new one. C14.b REPLACE-STORES-NEW: in LocalClient.AddVersion the store into the version slice inside the replace loop stores the parameter. C14.c READ-PURE: Version, Versions, Requirements and MatchingVersions of LocalClient write nothing reachable from the receiver, so lookups cannot change what later lookups report. Not decided: equivalence with a map model over all histories."
+	r.Explain = "Structural clauses of 'the in-memory client reports what was last added'. C14.a NOOP-STORE (deny-list, expected count zero, armed by a positive example analysed on every run): no store in package resolve writes back to s[i] the value just read from s[i] — the shape of AddVersion's replace branch storing the old element instead of the new one. C14.b REPLACE-STORES-NEW: in LocalClient.AddVersion the store into the version slice inside the replace loop stores the parameter. C14.c READ-PURE: Version, Versions, Requirements and MatchingVersions of LocalClient write nothing reachable from the receiver, so lookups cannot change what later lookups report. C14.d ADD-COMPLETE: every return of AddVersion except the one for Deleted versions passes the store of the requirements, the store of the version list and the loop (or helper) that makes dependency packages known. C14.e KEY-COVER: each lookup method reads every leaf component of the key it is given, so a key that was never added cannot be reported as found because it resembles a stored one. Not decided: equivalence with a map model over all histories."
 	fns := pkgFuncs(p, "resolve")
 	r.floor("C14.a/NOOP-STORE", "functions of package resolve scanned", len(fns), 100)
 	nIdxStores := 0
@@ -325,8 +329,12 @@ func checkC14(r *Report) {
 			}
 		}
 		r.floor("C14.b/REPLACE-STORES-NEW", "element stores into a []resolve.Version in AddVersion", n, 1)
-		addCompleteRule(r, p, add)
+		addCompleteRule(r, p, e, add)
 	}
+	keyCoverRule(r, p, "C14.e/KEY-COVER", "(*resolve.LocalClient).Version", 2)
+	keyCoverRule(r, p, "C14.e/KEY-COVER", "(*resolve.LocalClient).Versions", 2)
+	keyCoverRule(r, p, "C14.e/KEY-COVER", "(*resolve.LocalClient).Requirements", 2)
+	keyCoverRule(r, p, "C14.e/KEY-COVER", "(*resolve.LocalClient).MatchingVersions", 2)
 	n := readPureRule(r, p, e, "C14.c/READ-PURE", "resolve.LocalClient")
 	r.floor("C14.c/READ-PURE", "resolve.Client methods of LocalClient", n, 4)
 }
@@ -515,7 +523,7 @@ func checkC18(r *Report) {
 	e := runEffect(p)
 	pathTrusted(r)
 	effectTrusted(r)
-	r.Explain = "Structural clauses of 'the API-backed client maps bundles consistently, race-free'. C18.a LOCKSET: every access to a field F that has a sibling mutex FMu (APIClient.bundledVersions) is made with that mutex held on all paths (forward must-analysis of Lock/Unlock/defer Unlock per basic block). C18.b DERIVED-FIRST: the map update that stores a bundle into bundledVersions is dominated by a SetAttr(version.DerivedFrom, ...) call in the same function, so a stored bundle always records what it derives from. C18.c BUNDLE-GUARD: in each of the four resolve.Client methods of APIClient every RPC on the Insights service is on the false side of the isNPMBundle(name) test and the true side reads through getBundledVersion, so all four calls treat bundle names consistently. C18.d CLIENT-STATE: no field of APIClient is stored to after construction and the only field-held memory updated in place is bundledVersions. C18.e ALIAS-ISOLATED: no function of the API client that receives a dependency type by value writes its shared attribute map, so the alias (KnownAs) added to one requirement cannot leak into the other requirements built from the same per-section template. Not decided: equality of graphs through the two clients; the race detector's verdict on schedules (C18.a is the static necessary condition for it)."
+	r.Explain = "Structural clauses of 'the API-backed client maps bundles consistently, race-free'. C18.a LOCKSET: every access to a field F that has a sibling mutex FMu (APIClient.bundledVersions) is made with that mutex held on all paths (forward must-analysis of Lock/Unlock/defer Unlock per basic block). C18.b DERIVED-FIRST: the map update that stores a bundle into bundledVersions is dominated by a SetAttr(version.DerivedFrom, ...) call in the same function, so a stored bundle always records what it derives from. C18.c BUNDLE-GUARD: in each of the four resolve.Client methods of APIClient every RPC on the Insights service is on the false side of the isNPMBundle(name) test and the true side reads through getBundledVersion, so all four calls treat bundle names consistently. C18.d CLIENT-STATE: no field of APIClient is stored to after construction and the only field-held memory updated in place is bundledVersions. C18.e ALIAS-ISOLATED: no function of the API client that receives a dependency type by value writes its shared attribute map, so the alias (KnownAs) added to one requirement cannot leak into the other requirements built from the same per-section template. C18.f SORT-SELF: the callback that orders bundles parent-first indexes the very slice being sorted. Not decided: equality of graphs through the two clients; the race detector's verdict on schedules (C18.a is the static necessary condition for it)."
 	n := locksetRule(r, p, "C18.a/LOCKSET")
 	r.floor("C18.a/LOCKSET", "accesses to guarded fields", n, 2)
 	if tp := loadTestdata(); tp != nil {
@@ -668,6 +676,17 @@ func checkC18(r *Report) {
 		}
 		r.floor("C18.e/ALIAS-ISOLATED", "by-value attribute-set parameters in api.go", n, 1)
 	}
+	// C18.f
+	{
+		var apiFns []*ssa.Function
+		for _, f := range pkgFuncs(p, "resolve") {
+			if strings.HasSuffix(p.Fset.Position(f.Pos()).Filename, "/api.go") {
+				apiFns = append(apiFns, f)
+			}
+		}
+		n := sortSelfRule(r, p, "C18.f/SORT-SELF", apiFns)
+		r.floor("C18.f/SORT-SELF", "sort.Slice calls in api.go", n, 1)
+	}
 	// C18.d
 	structStateRule(r, p, e, "C18.d/CLIENT-STATE", "resolve", "APIClient", map[string]string{"bundledVersions": "guarded by bundledVersionsMu (C18.a)"})
 }
@@ -740,12 +759,30 @@ func structStateRule(r *Report, p *Prog, e *Effect, rule, pkgRel, typeName strin
 // addCompleteRule (C14.d): every return of AddVersion, except the early return
 // for versions flagged Deleted, is preceded by the store of the requirements
 // into lc.imports and by the loop that makes every dependency package known.
-func addCompleteRule(r *Report, p *Prog, add *ssa.Function) {
+func addCompleteRule(r *Report, p *Prog, e *Effect, add *ssa.Function) {
 	rule := "C14.d/ADD-COMPLETE"
+	// a helper "updates field F" if its effect summary has a map update on F
+	helperUpd := func(f *ssa.Function, field string) bool {
+		s := e.sums[f]
+		if s == nil || f == add {
+			return false
+		}
+		for st := range s.writes {
+			if st.kind == "map update" && st.field != nil && fieldOwnerKey(p, st.field) == "resolve.LocalClient."+field {
+				return true
+			}
+		}
+		return false
+	}
 	fieldUpd := func(b *ssa.BasicBlock, field string) bool {
 		for _, in := range b.Instrs {
 			if mu, ok := in.(*ssa.MapUpdate); ok {
 				if fv := nearestField(mu.Map); fv != nil && fieldOwnerKey(p, fv) == "resolve.LocalClient."+field {
+					return true
+				}
+			}
+			if c, ok := in.(ssa.CallInstruction); ok {
+				if sc := c.Common().StaticCallee(); sc != nil && helperUpd(sc, field) {
 					return true
 				}
 			}
@@ -811,11 +848,38 @@ func addCompleteRule(r *Report, p *Prog, add *ssa.Function) {
 	}
 	check("the store of the requirements into lc.imports", func(b *ssa.BasicBlock) bool { return fieldUpd(b, "imports") })
 	check("the store of the version list into lc.PackageVersions", func(b *ssa.BasicBlock) bool {
-		return fieldUpd(b, "PackageVersions") && (ensure == nil || !ensure.body[b])
+		direct := false
+		for _, in := range b.Instrs {
+			if mu, ok := in.(*ssa.MapUpdate); ok {
+				if fv := nearestField(mu.Map); fv != nil && fieldOwnerKey(p, fv) == "resolve.LocalClient.PackageVersions" {
+					direct = true
+				}
+			}
+		}
+		return direct && (ensure == nil || !ensure.body[b])
 	})
-	if ensure == nil {
-		r.bad(rule, fnKey(add)+": dependency packages made known", p.pos(add.Pos()), "AddVersion no longer has a loop that enters every dependency package into PackageVersions")
+	// the loop may have been moved into a helper that is called with the dependencies
+	helperCall := func(b *ssa.BasicBlock) bool {
+		for _, in := range b.Instrs {
+			if c, ok := in.(ssa.CallInstruction); ok {
+				if sc := c.Common().StaticCallee(); sc != nil && helperUpd(sc, "PackageVersions") && len(naturalLoops(sc)) > 0 {
+					return true
+				}
+			}
+		}
+		return false
+	}
+	hasHelper := false
+	for _, b := range add.Blocks {
+		if helperCall(b) {
+			hasHelper = true
+		}
+	}
+	if ensure == nil && !hasHelper {
+		r.bad(rule, fnKey(add)+": dependency packages made known", p.pos(add.Pos()), "AddVersion no longer has a loop (or a helper with one) that enters every dependency package into PackageVersions")
 	} else {
-		check("the loop that makes every dependency package known", func(b *ssa.BasicBlock) bool { return b == ensure.header })
+		check("the loop that makes every dependency package known", func(b *ssa.BasicBlock) bool {
+			return (ensure != nil && b == ensure.header) || helperCall(b)
+		})
 	}
 }
